@@ -1,7 +1,4 @@
-import TephraProps.C03
 import TephraProps.C03Lexer
-#print axioms Tephra.Props.C03_end_position_canonical
-#print axioms Tephra.Props.C03_measure_chunk
 #print axioms Tephra.Props.C03_lexer_positions_partial
 #print axioms Tephra.Props.C03_lexer_step
 #print axioms Tephra.Props.C03_lexer_new
